@@ -31,6 +31,30 @@ def run(fx, rep, tier):
     rule_mateconv(fx, rep)
     rule_zerowin(fx, rep, neg)
     rule_matesrc(fx, rep, neg)
+    rule_key(fx, rep)
+
+
+def rule_key(fx, rep):
+    """The move stored in the transposition table is tried first and can end up in a reported line without any legality
+    test: what makes it playable is that the key it was stored under identifies the position - placement, side to move,
+    castling rights and en-passant target. If the key written by make_move / undo_move / the constructor can differ from, or
+    alias, the from-scratch key (the C03 clauses), the move of one position is played and reported in another (seed C08-5b:
+    `e1g1` reported for a board without castling rights). The C03 clauses are re-reported here as that premise; key equality of
+    genuinely different positions (64-bit collisions) stays an assumption."""
+    import core
+    import pC03
+    sub = type(rep)(rep.prop, rep.tier)
+    q = core.QUIET
+    core.QUIET = True
+    try:
+        pC03.run(fx, sub, rep.tier)
+    finally:
+        core.QUIET = q
+    for v in sub.violations:
+        rep.violation("C08-KEY", v["key"].replace("C03-", "C08-KEY/", 1), v["msg"] + " (the table move of the aliased position is then played, and reported in the line, without a legality test)", v["site"])
+    rep.obligations += sub.obligations
+    rep.discharged += sub.discharged
+    rep.rule("C08-KEY", sub.obligations, 100, not sub.violations, "the key the table move is stored under identifies the position (shared with C03)")
 
 
 def rule_matesrc(fx, rep, neg):
@@ -706,7 +730,14 @@ def is_loop_exit(neg, tg, nb):
 NG = "src/engine/search/negamax.rs"
 ID = "src/engine/search/iterative_deepening.rs"
 PE = "src/engine/eval/player_eval.rs"
+def _c03_mutant(tag, expect):
+    import pC03
+    m = next(m for m in pC03.MUTANTS if tag in m["name"])
+    return {"name": m["name"], "expect": expect, "edits": m["edits"]}
+
+
 MUTANTS = [
+    _c03_mutant("seed C08-5b", "C08-KEY/SCRATCH/right/loop-colour"),
     {"name": "reduced zero-window result accepted after a second zero-window search (seed C08-4a)", "expect": "C08-ZEROWIN",
      "edits": [("src/engine/search/negamax.rs", "            if pvs_score > alpha && pvs_score < beta {\n                -negamax(game, -beta, -alpha, depth - 1, plies + 1, &mut node_pv, ctx)?", "            if pvs_score > alpha && reduction > 1 {\n                -negamax(game, -alpha - Eval(1), -alpha, depth - 1, plies + 1, &mut node_pv, ctx)?\n            } else if pvs_score > alpha && pvs_score < beta {\n                -negamax(game, -beta, -alpha, depth - 1, plies + 1, &mut node_pv, ctx)?")]},
     {"name": "quiescence announces mates itself (seed C08-4b)", "expect": "C08-MATESRC/quiescence",
